@@ -166,6 +166,11 @@ def sp_same(eng, node, st):
 
 def content_terms(eng, st, v, heap):
     k = v.k
+    if v.py is not None and isinstance(v.py, tuple) and v.py[0] == 'valarr':
+        sh = v.py[1]
+        return [sh[0], v.py[2]] + ([sh[1]] if k[1] == 2 else [])
+    if v.py is not None and isinstance(v.py, tuple) and v.py[0] == 'vallist':
+        return [v.py[1], v.py[2]]
     if k[0] == 'list':
         return [heap.rd('len', v.t), heap.rd('el:' + elem_tag(k[1]), v.t)]
     if k[0] == 'arr':
@@ -662,6 +667,21 @@ def havoc_target(eng, st, tgt):
             st.heap.wr('set:', v.t, z3.Const(fresh_name('hset'), z3.ArraySort(I, B)))
         elif k[0] == 'ddict':
             st.heap.wr('el:ref', v.t, z3.Const(fresh_name('hdd'), z3.ArraySort(I, I)))
+        elif k[0] == 'pdict':
+            # the value lists of the dict (a block of references) may have been appended to
+            b0, n = v.py
+            r = z3.Int(fresh_name('r'))
+            from . import models
+            models._CUR[0] = st
+            ol, oe = st.heap.get('len'), st.heap.get('el:int')
+            nl = z3.Const(fresh_name('hlen'), ol.sort())
+            ne = z3.Const(fresh_name('hel'), oe.sort())
+            inb = z3.And(b0 <= r, r < b0 + n)
+            st.assume(z3.ForAll([r], z3.And(z3.Implies(z3.Not(inb), z3.And(z3.Select(nl, r) == z3.Select(ol, r),
+                                                                           z3.Select(ne, r) == z3.Select(oe, r))),
+                                            z3.Select(nl, r) >= 0)))
+            st.heap.set('len', nl)
+            st.heap.set('el:int', ne)
         else:
             raise ContractError("cannot havoc %r" % (k,))
     elif tgt[0] == 'each':
@@ -693,6 +713,12 @@ def eval_assign_targets(eng, clauses, env, st):
             if not (isinstance(lst.k, tuple) and lst.k[0] == 'list' and isinstance(lst.k[1], tuple) and lst.k[1][0] == 'obj'):
                 raise ContractError("assigns %r: not a list of objects" % src)
             out.append(('each', lst, lst.k[1][1], mm.group(2)))
+            continue
+        if src.startswith('ref:'):      # the object a field refers to, not the field itself
+            v = eval_clause(eng, src[4:], env, st)
+            if not is_ref_kind(v.k):
+                raise ContractError("assigns target %r is not a reference" % src)
+            out.append(('ref', v))
             continue
         node = parse_clause(src)
         if isinstance(node, ast.Attribute):
